@@ -102,7 +102,11 @@ def arena_mc(pid, tier):
     # breadth-first exploration of Arena.tla, bounded by time (the small-scope state spaces run to tens of
     # millions of states): quick 45 s per config, thorough 15 min
     t = 66 if tier == "quick" else 905   # TLC reports progress once a minute
-    return [dict(module="Arena", cfg=c, workers=8, timeout=t, bounded=True, mem="8g", tier=tier) for c in ARENA_MC[pid]]
+    jobs = [dict(module="Arena", cfg=c, workers=8, timeout=t, bounded=True, mem="8g", tier=tier) for c in ARENA_MC[pid]]
+    if pid == "C09":
+        # liveness of the retry loop against a global allocator that refuses for ever (complete run, ~1 s)
+        jobs.append(dict(module="Retry", cfg="Retry", workers=4, timeout=600))
+    return jobs
 
 def plan_for(pid, tier, seed):
     if pid == "C05":
